@@ -28,6 +28,11 @@ theorem C02_queues_tie : Generated.reactDrainsWholeQueue = true ∧ Generated.re
 `SyncEntity` (`Or<(Changed<T>, Added<SyncEntity>)>`, D2 repaired) -/
 theorem C02_detect_filter_tie : Generated.detectSeesNewSyncEntity = true := by decide
 
+/-- (tie) keys are independent: the slice follows one (entity, component) key, which is sound only if what happens to one entity
+in a frame cannot keep another entity's change from being queued — both detection systems are a plain loop that queues every
+entity the query yields (no state carried from one iteration to the next) -/
+theorem C02_keys_independent_tie : Generated.detectQueuesEveryMatch = true := by decide
+
 /-- **values the entity already carried when it was marked.** On the marking peer the value is handed to the
 replication queue exactly once — whichever side of the frame's sync point `sync_detect<T>` happens to be
 ordered on in this run of the application — and never again while nobody writes; from there on it is an
